@@ -269,3 +269,82 @@ fn verif_native_c02_independence() {
     }
     assert!(fails.is_empty(), "C02.N.independence: FAILSET{{{}}} {} of {} operator/direction pairs fail over {} singleton comparisons, first: {:?}", ids.join(","), fails.len(), 2 * defs.len(), n, &fails[..fails.len().min(6)]);
 }
+
+//@n {"id":"C15.N.gravsoft.layout","props":["C15","C16"],"tier":"quick","bound":"2x3-node Gravsoft texts with 1, 2 and 3 bands x 6 layouts (plain, CRLF, tabs and blank lines, one value per line, comments before/after/between with one or several # per line, trailing comment without newline); plus truncated and over-long texts","text":"a Gravsoft text grid decodes to a grid whose geometry and node values are those written in the file after the documented sign, order and unit conventions, whatever the comment and whitespace layout; texts with too few or too many values are rejected with an error, not a panic"}
+#[test]
+fn verif_native_c15_gravsoft_layout() {
+    let mut fails = Vec::new();
+    let mut n = 0;
+    for bands in 1..=3usize {
+        // header: lat 55..56, lon 10..12, spacing 1 => 2 rows x 3 columns, rows north to south
+        let header = ["55", "56", "10", "12", "1", "1"];
+        let vals: Vec<f64> = (0..(6 * bands)).map(|k| (k + 1) as f64 * 1.5).collect();
+        let toks: Vec<String> = header.iter().map(|s| s.to_string()).chain(vals.iter().map(|v| format!("{v}"))).collect();
+        let layouts: Vec<(String, String)> = vec![
+            ("plain".into(), toks.join(" ") + "\n"),
+            ("crlf".into(), toks.chunks(4).map(|c| c.join(" ")).collect::<Vec<_>>().join("\r\n") + "\r\n"),
+            ("tabs-blank-lines".into(), toks.chunks(3).map(|c| c.join("\t")).collect::<Vec<_>>().join("\n\n   \n") + "\n"),
+            ("one-per-line".into(), toks.join("\n")),
+            ("comments".into(), format!("# a grid\n## second heading # with more\n{} # header # note 3\n{}\n# the end", toks[..6].join(" "), toks[6..].join(" "))),
+            ("inline-comments".into(), toks.iter().map(|t| format!("{t} # value {t} # really")).collect::<Vec<_>>().join("\n")),
+        ];
+        for (name, text) in &layouts {
+            n += 1;
+            let g = match std::panic::catch_unwind(|| BaseGrid::gravsoft(text.as_bytes())) {
+                Err(_) => {
+                    fails.push(format!("{bands} bands, layout {name}: panicked"));
+                    continue;
+                }
+                Ok(Err(e)) => {
+                    fails.push(format!("{bands} bands, layout {name}: rejected: {e:?}"));
+                    continue;
+                }
+                Ok(Ok(g)) => g,
+            };
+            if g.bands != bands {
+                fails.push(format!("{bands} bands, layout {name}: decoded {} bands", g.bands));
+                continue;
+            }
+            // node (row r from the north, column c from the west), band b, as at() delivers it
+            for r in 0..2 {
+                for c in 0..3 {
+                    let p = Coor4D::geo(56.0 - r as f64, 10.0 + c as f64, 0.0, 0.0);
+                    let v = match g.at(&p, 0.0) {
+                        Some(v) => v,
+                        None => {
+                            fails.push(format!("{bands} bands, layout {name}: node ({r},{c}) not inside"));
+                            continue;
+                        }
+                    };
+                    let w = |b: usize| vals[bands * (3 * r + c) + b];
+                    let arc = |x: f64| ((x as f32 / 3600.0f32) as f64).to_radians();
+                    let exp: Vec<f64> = match bands {
+                        1 => vec![w(0)],
+                        2 => vec![arc(w(1)), arc(w(0))],           // file (lat, lon) arcsec -> (lon, lat) radians
+                        _ => vec![w(1) / 1000.0, w(0) / 1000.0, w(2) / 1000.0], // file (n, e, u) mm/yr -> (e, n, u) m/yr
+                    };
+                    for b in 0..bands {
+                        if (v[b] - exp[b]).abs() > 1e-6 * exp[b].abs().max(1e-9) {
+                            fails.push(format!("{bands} bands, layout {name}: node ({r},{c}) band {b}: {} expected {}", v[b], exp[b]));
+                        }
+                    }
+                }
+            }
+        }
+        // malformed: too few values, one value too many, non-numeric junk, empty
+        for (name, text) in [("truncated", toks[..toks.len() - 1].join(" ")), ("header-only", toks[..6].join(" ")), ("short-header", toks[..4].join(" ")), ("empty", String::new()), ("zero-spacing", format!("55 56 10 12 0 0 {}", toks[6..].join(" ")))] {
+            n += 1;
+            match std::panic::catch_unwind(|| BaseGrid::gravsoft(text.as_bytes())) {
+                Err(_) => fails.push(format!("{bands} bands, malformed text {name}: panicked")),
+                Ok(Ok(g)) => {
+                    // accepted: must at least be safely queryable
+                    if std::panic::catch_unwind(|| g.at(&Coor4D::geo(55.5, 11.0, 0.0, 0.0), 0.5)).is_err() {
+                        fails.push(format!("{bands} bands, malformed text {name}: accepted and panics when queried"));
+                    }
+                }
+                Ok(Err(_)) => {}
+            }
+        }
+    }
+    assert!(fails.is_empty(), "C15.N.gravsoft.layout: {} of {} texts wrong, first: {:?}", fails.len(), n, &fails[..fails.len().min(5)]);
+}
